@@ -402,12 +402,13 @@ void session_table_clear(session_table *table) {
     table->all_complete = true;
 }
 
-int derive_session_event(const void *frame, session_table *table, const uint8_t *our_mac) {
+int derive_session_event(const void *frame, size_t frame_len, session_table *table, const uint8_t *our_mac) {
     if (!frame) {
         return -1;
     }
 
 #ifdef LLTD_TESTING
+    (void)frame_len;
     (void)table;
     (void)our_mac;
     return sess_discover_noack;
@@ -444,6 +445,14 @@ int derive_session_event(const void *frame, session_table *table, const uint8_t 
                 acking = true;
             } else {
                 const ethernet_address_t *stations = disc_header->stationList;
+                /* only as many entries as the received frame really holds */
+                size_t list_offset = sizeof(*header) + 2 * sizeof(uint16_t);
+                size_t held = (frame_len > list_offset)
+                    ? (frame_len - list_offset) / sizeof(ethernet_address_t)
+                    : 0;
+                if ((size_t)station_count > held) {
+                    station_count = (uint16_t)held;
+                }
                 for (uint16_t i = 0; i < station_count; i++) {
                     if (mac_equal(stations[i].a, our_mac)) {
                         acking = true;
